@@ -88,6 +88,7 @@ theorem ltr_done {s : State} {t : Tid} {e : Event} {x' : Thr} (h : LTr s t e x')
   | wwRelCasOk exp new obs hl =>
     by_cases hz : (s.thr t).list.isEmpty = true <;> simp only [hz, if_true, if_false] <;> simp [bcastDone, hl]
   | noteSeen hl => rcases hl with hl | hl | hl <;> simp [bcastDone, hl]
+  | dbgLd obs hl ho => split <;> simp [bcastDone, hl]
   | _ => simp_all [bcastDone, Thr.fresh]
 
 end NsyncVerif.CvFix
